@@ -278,6 +278,8 @@ fn line_strategy() -> impl Strategy<Value = Vec<u8>> {
         1 => (junk(), valid()).prop_map(|(mut j, v)| { j.extend_from_slice(&v); j }),
         1 => (valid(), junk()).prop_map(|(mut v, j)| { v.extend_from_slice(&j); v }),
         1 => (valid(), valid()).prop_map(|(mut a, b)| { a.extend_from_slice(&b); a }),
+        // one character of a valid frame replaced (another digit, the other letter case, a sign, a space, ...)
+        2 => (valid(), any::<u16>(), proptest::sample::select(b"0123456789ABCDEFabcdef:G\r +-_xX\x00".to_vec())).prop_map(|(mut v, sel, ch)| { let i = crate::engine::pick_idx(sel, v.len()); v[i] = ch; v }),
         1 => valid().prop_map(|mut v| { let n = v.len(); v[n - 1] = if v[n - 1] == b'0' { b'1' } else { b'0' }; v }), // bad checksum
         1 => valid().prop_map(|mut v| { v.pop(); v }),                                          // odd digit count
         1 => proptest::collection::vec(any::<u8>().prop_filter("no LF", |b| *b != b'\n'), 0..12),
@@ -458,8 +460,8 @@ pub fn run(ctx: &Ctx) {
     });
     ctx.part_done("read-every-length-back-to-back", true, json!("3 back-to-back frames of every data length 0..=255 x {CRLF, LF} x 3 read sizes"));
 
-    run_generated(ctx, "read", ctx.tier.pick(150_000, 3_000_000), read_case_strategy, |c, st| check_read(c, st));
-    run_generated(ctx, "write", ctx.tier.pick(100_000, 2_000_000), write_case_strategy, |c, st| check_write(c, st));
+    run_generated(ctx, "read", ctx.tier.pick(600_000, 6_000_000), read_case_strategy, |c, st| check_read(c, st));
+    run_generated(ctx, "write", ctx.tier.pick(400_000, 4_000_000), write_case_strategy, |c, st| check_write(c, st));
 }
 
 pub fn replay(part: &str, case: &Value) -> Result<(), String> {
